@@ -55,11 +55,11 @@ def bodyColorComp (b : TblAttrsOf Attr) : Color.Comp :=
 def textColorComps (title subline : Option TextComp) (footnote source : Option Foot)
     (pageHeader pageFooter : Option TextComp) : List Color.Comp :=
   ([title, subline].filterMap id).map (fun t => textColorComp t.attrs) ++
-  ([footnote, source].filterMap id).map (fun f => textColorComp f.attrs.toTextAttrsOf) ++
+  ([footnote, source].filterMap id).map (fun f => bodyColorComp f.attrs) ++
   ([pageHeader, pageFooter].filterMap id).map (fun t => textColorComp t.attrs)
 
 def headerColorComps (hs : List (Option Header)) : List Color.Comp :=
-  (hs.filterMap id).map fun h => textColorComp h.attrs.toTextAttrsOf
+  (hs.filterMap id).map fun h => bodyColorComp h.attrs
 
 /-- every header object of the document, flat or nested -/
 def MDoc.allHeaders (d : MDoc) : List (Option Header) :=
